@@ -95,11 +95,13 @@ type Specs struct {
 	Guards    []GuardDecl
 	FnFields  map[string]*Contract // key pkgpath.Struct.field
 	Inlines   map[string]bool      // key pkgpath.Func
+	Regions   map[string][]string  // region name -> state-key glob patterns
+	RegionOrd []string
 	Errors    []string
 }
 
 func NewSpecs() *Specs {
-	return &Specs{Contracts: map[string]*Contract{}, Preds: map[string]*Pred{}, GhostFns: map[string]*GhostFn{}, GhostVars: map[string]string{}, FnFields: map[string]*Contract{}, Inlines: map[string]bool{}}
+	return &Specs{Contracts: map[string]*Contract{}, Preds: map[string]*Pred{}, GhostFns: map[string]*GhostFn{}, GhostVars: map[string]string{}, FnFields: map[string]*Contract{}, Inlines: map[string]bool{}, Regions: map[string][]string{}}
 }
 
 var labelRe = regexp.MustCompile(`^(requires|ensures|invariant)\[([A-Za-z0-9_.:-]+)\]`)
@@ -140,7 +142,7 @@ func (s *Specs) LoadContractFile(path, pkgPath string, isGo bool) {
 			first = t[:j]
 		}
 		switch first {
-		case "unit", "requires", "ensures", "assigns", "loop", "ghost", "at", "trusted", "inline", "extern", "pred", "ghostfn", "package", "guarded_by", "holds", "acquires", "props", "why", "fnfield", "ghostvar":
+		case "unit", "requires", "ensures", "assigns", "loop", "ghost", "at", "trusted", "inline", "extern", "pred", "ghostfn", "package", "guarded_by", "holds", "acquires", "props", "why", "fnfield", "ghostvar", "region":
 			logical = append(logical, ll{t, i + 1})
 		default:
 			if len(logical) == 0 {
@@ -383,6 +385,21 @@ func (s *Specs) LoadContractFile(path, pkgPath string, isGo bool) {
 				}
 			}
 			s.GhostFns[g.Name] = g
+		case "region":
+			eq := strings.Index(rest, "=")
+			if eq < 0 {
+				errf(l.n, "region name = patterns")
+				continue
+			}
+			name := strings.TrimSpace(rest[:eq])
+			if _, ok := s.Regions[name]; !ok {
+				s.RegionOrd = append(s.RegionOrd, name)
+			}
+			for _, pat := range strings.Split(rest[eq+1:], ",") {
+				if pat = strings.TrimSpace(pat); pat != "" {
+					s.Regions[name] = append(s.Regions[name], pat)
+				}
+			}
 		case "ghostvar":
 			f := strings.Fields(rest)
 			if len(f) != 2 {
